@@ -215,3 +215,27 @@ class ds9_property_names_are_case_insensitive:
         return dict(metadata_str=text)
     post = {'keys_lower_case_values_verbatim': lambda result:
             dict(result) == {'color': 'Red', 'include': '0', 'text': 'Ab c'}}
+
+
+@contract(READ + '_parse_metadata', props=['C10', 'C09'])
+class ds9_delimited_values_are_kept_verbatim:
+    """a value in {} "" or '' is what stands between the delimiters, character for character - quote characters and braces that
+    belong to the value (at its ends or inside) included"""
+    cases = {
+        'quote_at_the_end_in_braces': {'text': 'text={NGC 1333 "core"}', 'want': {'text': 'NGC 1333 "core"'}},
+        'arcmin_mark_at_the_end': {'text': "text={fov 5'}", 'want': {'text': "fov 5'"}},
+        'quote_at_the_start': {'text': 'text={"core" of NGC 1333} color=red', 'want': {'text': '"core" of NGC 1333', 'color': 'red'}},
+        'apostrophe_inside_double_quotes': {'text': 'text="it\'s"', 'want': {'text': "it's"}},
+        'double_quotes_inside_single_quotes': {'text': "text='say \"hi\"'", 'want': {'text': 'say "hi"'}},
+        'tag_with_quotes': {'text': 'tag={beam 12"} tag={x}', 'want': {'tag': ['beam 12"', 'x']}},
+    }
+
+    def setup(B, text='', want=None):
+        return dict(metadata_str=text, want=want)
+    call = lambda metadata_str: _parse_metadata_of(metadata_str)
+    post = {'verbatim': lambda want, result: dict(result) == want}
+
+
+def _parse_metadata_of(metadata_str):
+    from regions.io.ds9.read import _parse_metadata
+    return _parse_metadata(metadata_str)
